@@ -69,7 +69,9 @@ let () =
          | Some key -> Hashtbl.replace seen key ()
          | None -> ());
         let v, cross = (try p.check fields with e -> (OracleFail ("driver exception: " ^ Printexc.to_string e), None)) in
-        (match cross with Some c -> crosses := c :: !crosses | None -> ());
+        (* very large cases (65535-entry vectors, multi-megabyte bodies) overflow coqc's parser stack: they are
+           checked by the extracted model only, the vm_compute cross-check samples the others *)
+        (match cross with Some c when String.length c <= 40000 -> crosses := c :: !crosses | _ -> ());
         (match v with
          | Ok_ -> incr ok
          | OracleFail d -> incr ofail; Printf.fprintf oc "FAIL %s %s oracle %s\n" id cls d
